@@ -53,6 +53,107 @@ def _py_fallback(fc, level):
             phonopy._phonopy = saved_attr
 
 
+def _closed_full(fc, level):
+    """numpy evaluation of the model's closed form `fullSym` (column drift, row drift, permutation average, `level`
+    times; then the self terms from the sum rule) - used for sizes the Lean driver is not asked to evaluate."""
+    a = np.array(fc, dtype="double")
+    for _ in range(level):
+        a = a - a.mean(axis=0, keepdims=True)
+        a = a - a.mean(axis=1, keepdims=True)
+        a = (a + a.transpose(1, 0, 3, 2)) / 2
+    n = a.shape[0]
+    idx = np.arange(n)
+    off = a.copy()
+    off[idx, idx] = 0
+    rs = off.sum(axis=1)                      # sum over j' != i of Phi(i,j',k,l)
+    a[idx, idx] = -(rs + rs.transpose(0, 2, 1)) / 2
+    return a
+
+
+_GOMP = None
+
+
+def _set_threads(k):
+    global _GOMP
+    if _GOMP is None:
+        import ctypes
+
+        _GOMP = ctypes.CDLL("libgomp.so.1")
+    _GOMP.omp_set_num_threads(int(k))
+
+
+def _large_cases(run, rng, F, thorough):
+    """Sizes well above the small exact cases (hundreds of atoms), several OpenMP thread counts: a size threshold or a
+    thread-dependent path in the symmetrisers would only show here.  Float-side oracle only (closed form in numpy +
+    the property itself); the Lean driver is not asked to evaluate these sizes."""
+    # the closed form in numpy is first validated against the C routine on a small array the model also sees
+    small = gen.rand_rational_array(rng, (5, 5, 3, 3))
+    for lv in (0, 1, 2):
+        t = small.copy()
+        F.symmetrize_force_constants(t, level=lv)
+        if not _close(t, _closed_full(small, lv)):
+            run.broke("correspondence", "numpy closed form of fullSym differs from the C routine on a 5-atom array (level %d)" % lv)
+            return
+    sizes = [rng.randint(130, 180), rng.randint(200, 260)] + ([320] if thorough else [])
+    for n in sizes:
+        level = rng.choice([1, 2])
+        fc0 = rng_array(rng, (n, n, 3, 3))
+        ref = _closed_full(fc0, level)
+        for th in (8, 3, 1):
+            _set_threads(th)
+            out = fc0.copy()
+            F.symmetrize_force_constants(out, level=level)
+            if not _close(out, ref):
+                run.violation("symmetrize_force_constants", "large-array", "%d atoms, level %d, %d OpenMP threads: result differs from the closed form by %.3g" % (n, level, th, np.abs(out - ref).max()),
+                              dict(n=n, level=level, threads=th, rng_seed=run.seed))
+            again = out.copy()
+            F.symmetrize_force_constants(again, level=1)
+            if not _close(again, out):
+                run.violation("symmetrize_force_constants", "not-idempotent-large", "%d atoms, %d threads: second application changes the array by %.3g" % (n, th, np.abs(again - out).max()),
+                              dict(n=n, level=level, threads=th, rng_seed=run.seed))
+        run.case(("large-full", n, level), nontrivial=True)
+        run.count("large full arrays (float-side oracle, 8/3/1 threads)")
+    # compact layout on a big supercell: compact routine == full routine on the expanded array
+    big = [("nacl_prim", [[3, 0, 0], [0, 3, 0], [0, 0, 3]]), ("cscl", [[4, 0, 0], [0, 4, 0], [0, 0, 4]]), ("sc", [[5, 0, 0], [0, 5, 0], [0, 0, 5]]),
+           ("zincblende_prim", [[4, 0, 0], [0, 3, 0], [0, 0, 3]]), ("hcp", [[4, 0, 0], [0, 4, 0], [0, 0, 3]]), ("bct", [[4, 0, 0], [0, 4, 0], [0, 0, 4]])]
+    picks = big if thorough else [big[run.seed % len(big)]]
+    for name, sm in picks:
+        cell, cen = gen.make_cell(name)
+        smat = np.array(sm)
+        try:
+            ph = gen.make_phonopy(cell, smat, pmat="P")
+        except Exception:
+            run.count("constructor-rejected")
+            continue
+        p2s, s2pp, nsym, perms = gen.compact_tables(ph)
+        npa, ns = len(p2s), perms.shape[1]
+        level = rng.choice([1, 2])
+        fcc0 = rng_array(rng, (npa, ns, 3, 3))
+        full0 = F.compact_fc_to_full_fc(ph.primitive, fcc0)
+        ref_full = _closed_full(full0, level)
+        for th in (8, 1):
+            _set_threads(th)
+            fcc = fcc0.copy()
+            F.symmetrize_compact_force_constants(fcc, ph.primitive, level=level)
+            exp = F.compact_fc_to_full_fc(ph.primitive, fcc)
+            if not _close(exp, ref_full):
+                run.violation("symmetrize_compact_force_constants", "compact-ne-full-large", "%s %s (%d atoms), level %d, %d threads: expanded compact result differs from the full closed form by %.3g" % (name, sm, ns, level, th, np.abs(exp - ref_full).max()),
+                              dict(cell=name, smat=sm, level=level, threads=th, rng_seed=run.seed))
+            back = F.full_fc_to_compact_fc(ph.primitive, exp)
+            if not _close(back, fcc):
+                run.violation("full_fc_to_compact_fc", "layout-roundtrip-large", "%s %s: compact->full->compact is not the identity" % (name, sm), dict(cell=name, smat=sm))
+        run.case(("large-compact", name, repr(sm), level), nontrivial=True)
+        run.count("large compact arrays (float-side oracle, 8/1 threads)")
+    _set_threads(8)
+    run.count("oracle-large", section="oracle")
+
+
+def rng_array(rng, shape):
+    """random doubles k/64 (exact in binary) for sizes where exact-rational wire text is not needed"""
+    npr = np.random.default_rng(rng.randint(0, 2**31 - 1))
+    return npr.integers(-256, 257, size=shape).astype("double") / 64
+
+
 def main(run):
     rng = run.rng
     common.setup_phonopy("omp")
@@ -405,6 +506,9 @@ def main(run):
                           dict(lattice=sc.cell.tolist(), positions=sc.scaled_positions.tolist(), numbers=sc.numbers.tolist()))
         run.count("oracle-pj", section="oracle")
         done_pj += 1
+
+    # ---------------- large arrays, thread counts
+    _large_cases(run, rng, F, thorough)
 
     # ---------------- correspondence with the Lean model
     out = common.lean_run_driver("C07", lines)
